@@ -17,6 +17,10 @@ EXTRA = {
  'C15': 'identical in effect to the own mutant mutants/c15_drop_fold.patch',
  'C20': 'patch.diff is the seed adapted to the tree after the fastlog fixes',
  'C12b': 'second C12 seed, produced on the repaired tree because the first one was neutralised by a fix; missed by the C12 quick check at first (the subnet-containment assertion carried only the C11 label; C11 caught it), caught by C12 after the assertion was registered under both properties',
+ 'C08b': 'missed by the C08 quick check at first (needs 9 option bytes, the arbitrary-bytes DHCP harness stopped at 6); caught after option templates (zero / short / long option lengths) were added',
+ 'C09b': 'missed by the C09 quick check at first: the composite operation SetDHCPv4IPOffer+DHCPv4IPOffer synchronises incidentally with DHCPv4Update in every non-preemptive schedule; caught after the two accessors were added as separate operations (the thorough tier, preemption 1, reaches it either way)',
+ 'C11b': 'missed by the C11 quick check at first (DISCOVER against a table holding another client\'s lease was thorough-only); caught after that job was added to the quick tier',
+ 'C15b': 'missed by the C15 quick check at first (headers were always fresh, checksum field zero); caught after the checksum field before completion was made arbitrary and a header completed twice was added',
  'C17b': 'second-round seed; missed by the C17 quick check at first (every harness message carried an A or CNAME record besides the AAAA record), caught after an AAAA-only shape and single-record handler scenarios were added',
  'C09': 'caught twice: by C05 (sequential purge step: self-deadlock on the leaked row lock when the sibling host is made offline in the same pass) and by C09 (thread mode: deadlock findings, replayed natively as hangs)',
 }
